@@ -187,6 +187,17 @@ return ok
                          "Schema([Rule(('x', 0), Value.equal_to(b)), Rule(('s',), Value.truthy())])", sch_beh, stubs=["cond_repr"]))
     out.append(pair_case("c14.schema.rule_dropped", ii, ipre, "Schema([Rule(('x', 0), Value.equal_to(a)), Rule(('s',), Value.falsy())])",
                          "Schema([Rule(('x', 0), Value.equal_to(b))])", sch_beh, stubs=["cond_repr"]))
+    # the same rules in another order (ties in path length keep the given order; with casts a later rule sees the
+    # values an earlier one cast): if such schemas compare equal they must judge alike
+    cast_beh = "(lambda t: (t.is_valid, t.num_failures, t.num_rules_tested, tx(t.cast_data)))(OBJ.validate({'a': '5', 'b': u, 'c': 'x'}))"
+    R1 = "Rule(('a',), Value.dtype.equal_to(int), cast={str: int})"
+    R2 = "Rule(('b',), Value.equal_to(DataPath('a')), cast={str: int})"
+    R3 = "Rule(('c',), Value.equal_to(a))"
+    iu2 = [("a", "int"), ("u", "Union[int, bool, None]")]
+    out.append(pair_case("c14.schema.rule_order.casts", iu2, [f"BU({L}, a, u)"], f"Schema([{R1}, {R2}])", f"Schema([{R2}, {R1}])", cast_beh, stubs=["cond_repr"]))
+    out.append(pair_case("c14.schema.rule_order.casts3", iu2, [f"BU({L}, a, u)"], f"Schema([{R3}, {R1}, {R2}])", f"Schema([{R2}, {R3}, {R1}])", cast_beh, stubs=["cond_repr"]))
+    out.append(pair_case("c14.schema.rule_order.same", iu2, [f"BU({L}, a, u)"], f"Schema([{R1}, {R2}, {R3}])", f"Schema([{R1}, {R2}, {R3}])",
+                         cast_beh + " if OBJ == Schema([" + f"{R1}, {R2}, {R3}" + "]) else None", stubs=["cond_repr"]))
     if not ctx.quick:
         from engine import terms as _t
         one_arg = ["equal_to", "not_equal_to", "less_than", "greater_than", "less_than_or_equal_to", "greater_than_or_equal_to",
